@@ -49,6 +49,25 @@ func (g *Gen) havocResults(name string, sig *types.Signature, st *State) []Term 
 
 // call handles a Call (or deferred call executed at RunDefers).
 func (g *Gen) call(v ssa.Value, c *ssa.CallCommon, st *State) *State {
+	// interior pointers to by-value aggregates passed as arguments are passed
+	// as read-only copies (abstraction, reported)
+	for _, a := range c.Args {
+		if pl := g.places[a]; pl != nil && !pl.Struct {
+			if _, done := g.vals[a]; done {
+				continue
+			}
+			et := deref(a.Type())
+			if et == nil || !isAggregate(et) {
+				continue
+			}
+			var r Term
+			r, st = g.allocRef(st)
+			cp := g.placeOfRef(r, et)
+			st = g.store(st, cp, g.load(st, pl))
+			g.vals[a] = r
+			g.abstractedOnce("interior-pointer-arg: a pointer to an aggregate stored by value inside a slice element is passed as a read-only copy")
+		}
+	}
 	var args []ssa.Value
 	if c.IsInvoke() {
 		args = append([]ssa.Value{c.Value}, c.Args...)
@@ -205,8 +224,10 @@ func (g *Gen) inline(v ssa.Value, fn *ssa.Function, args []ssa.Value, bindings [
 	c.inlineFrames = []*inlineFrame{fr}
 	for i, p := range fn.Params {
 		if pl := g.places[args[i]]; pl != nil {
-			c.places[p] = pl
-			continue
+			if _, copied := g.vals[args[i]]; !copied {
+				c.places[p] = pl
+				continue
+			}
 		}
 		c.vals[p] = g.val(args[i])
 		if cl, ok := g.clos[args[i]]; ok {
@@ -265,6 +286,10 @@ func (g *Gen) rootGen() *Gen {
 func (g *Gen) applyContract(v ssa.Value, con *spec.FuncContract, sig *types.Signature, args []ssa.Value, st *State, name string) *State {
 	argTV := make([]TV, len(args))
 	for i, a := range args {
+		if _, copied := g.vals[a]; g.places[a] != nil && copied {
+			argTV[i] = TV{g.val(a), g.u.SortOf(a.Type()), a.Type()}
+			continue
+		}
 		if pl := g.places[a]; pl != nil {
 			// interior pointer passed to a contracted callee: only allowed when
 			// the contract does not mention the parameter (name "_")
@@ -357,6 +382,12 @@ func (g *Gen) applyContractTV(v ssa.Value, con *spec.FuncContract, sig *types.Si
 		rt := resultTypes(sig)[0]
 		env.vars["result"] = TV{res[0], g.u.SortOf(rt), rt}
 	}
+	if n := len(res); n > 0 {
+		rt := resultTypes(sig)[n-1]
+		if _, bound := env.vars["err"]; !bound && isErrorType(rt) {
+			env.vars["err"] = TV{res[n-1], g.u.SortOf(rt), rt}
+		}
+	}
 	for _, fr := range con.Fresh {
 		if tv, ok := env.vars[fr]; ok {
 			t := tv.T
@@ -379,6 +410,18 @@ func (g *Gen) applyContractTV(v ssa.Value, con *spec.FuncContract, sig *types.Si
 // allocation top; an in-repo callee with a body gets its computed mod-set.
 func (g *Gen) contractMods(con *spec.FuncContract, args []ssa.Value) (map[string]bool, bool) {
 	mods := map[string]bool{TopKey: true}
+	// closure arguments may be run by the callee: their effects are the callee's
+	for _, a := range args {
+		if cl, ok := g.clos[a]; ok {
+			m, all := g.prog.ModSet(g.u, cl.Fn.(*ssa.Function))
+			if all {
+				return mods, true
+			}
+			for k := range m {
+				mods[k] = true
+			}
+		}
+	}
 	if !con.HasMod {
 		if f := g.prog.LookupFunc(con); f != nil && len(f.Blocks) > 0 && !con.Trusted {
 			m, all := g.prog.ModSet(g.u, f)
@@ -500,10 +543,20 @@ func (g *Gen) argMods(a ssa.Value, mods map[string]bool) {
 func (g *Gen) runDefers(x *ssa.RunDefers, st *State) *State {
 	for i := len(g.defers) - 1; i >= 0; i-- {
 		d := g.defers[i]
-		if !d.Block().Dominates(g.curBlock) {
-			g.fail("conditional defer at %s not supported", g.pos(d))
+		if d.Block().Dominates(g.curBlock) {
+			st = g.call(nil, d.Common(), st)
+			continue
 		}
-		st = g.call(nil, d.Common(), st)
+		// conditional defer: it runs iff control passed through its block
+		rd, ok := g.reach[d.Block()]
+		if !ok {
+			continue // defer in a block not reachable before this point
+		}
+		saved := g.reach[g.curBlock]
+		g.reach[g.curBlock] = fmt.Sprintf("(and %s %s)", saved, rd)
+		s1 := g.call(nil, d.Common(), st)
+		g.reach[g.curBlock] = saved
+		st = g.joinStates([]*State{s1, st}, []Term{fmt.Sprintf("(and %s %s)", saved, rd), fmt.Sprintf("(and %s (not %s))", saved, rd)})
 	}
 	return st
 }
